@@ -54,7 +54,7 @@ pub(super) fn execute_create_from_rows<S: GraphSnapshot>(
                 UNLABELED_LABEL_ID
             };
 
-            let node_id = txn.create_node(external_id, label_id)?;
+            let node_id = txn.create_node_auto_id(external_id, label_id)?;
             for extra_label in node_pat.labels.iter().skip(1) {
                 let extra_label_id = txn.get_or_create_label_id(extra_label)?;
                 txn.add_node_label(node_id, extra_label_id)?;
